@@ -83,6 +83,13 @@ impl<'a, S: MlDsa> World<'a, S> {
         let mut e = json!({"ev": "SignInternal", "sk": hs, "mp": ident(mp), "draw": ident(draw), "sig": "none"});
         match r { Ok(sig) => { e["sig"] = json!(ident(&sig)); self.emit(e, None); Some(sig) } Err(p) => { self.emit(e, Some(p)); None } }
     }
+    /// the constant-time test entry point: `data` = 64 bytes the RNG hands out, fault at request `at`
+    pub fn dudect(&mut self, data: &[u8], fault: Fault, at: usize) -> Option<bool> {
+        let mut rng = ScriptRng::faulty(data, fault.clone(), at);
+        let r = guarded(|| S::dudect(&mut rng, b"ct").is_ok());
+        let mut e = json!({"ev": "Dudect", "fault": fault_name(&fault), "at": at, "rnglog": rng.log_json()});
+        match r { Ok(ok) => { e["ok"] = json!(ok); self.emit(e, None); Some(ok) } Err(p) => { self.emit(e, Some(p)); None } }
+    }
     /// Algorithm 8 through the internal interface
     pub fn verify_internal(&mut self, hp: i64, mp: &[u8], sig: &[u8]) -> Option<bool> {
         let pk = self.pks.get(&hp).expect("pk handle").clone();
@@ -466,6 +473,15 @@ pub fn rngfaults<S: MlDsa>(seed: u64, nsweeps: usize, out: &mut Out) {
             if let Some(sig) = w.sign(hs, b"rng", b"c", mode, &d, f.clone()) { let _ = w.verify(hp, b"rng", b"c", mode, &sig); }
         }
     }
+    // the constant-time test entry point draws twice (seed, rnd): a fault at either request is an error.  The fault-free call
+    // is recorded in builds without debug assertions only (with them the entry point can trip its encoders' self-checks:
+    // recorded finding of C13)
+    for at in [0usize, 1] {
+        for f in faults.iter() {
+            if matches!(f, Fault::None) && (at == 1 || cfg!(debug_assertions)) { continue; }
+            let _ = w.dudect(&p.bytes(64), f.clone(), at);
+        }
+    }
     // an error must not leave a usable partial result: after a failed keygen/sign the next healthy call works
     let d = p.arr32();
     let _ = w.keygen_rng(&d, Fault::None);
@@ -700,6 +716,11 @@ pub fn replay_behaviours<S: MlDsa>(seed: u64, file: &str, out: &mut Out) -> usiz
                 "Derive" => { let Some(&hs) = hmap.get(&gi(c, "sk")) else { continue }; let h = w.derive(hs); hmap.insert(gi(c, "pk"), h); let l = lin[&hs].clone(); lin.insert(h, l); }
                 "Clone" => { let Some(&h) = hmap.get(&gi(c, "h")) else { continue }; let h2 = w.clone_key(h); hmap.insert(gi(c, "h2"), h2); let l = lin[&h].clone(); lin.insert(h2, l); }
                 "Drop" => { if let Some(h) = hmap.remove(&gi(c, "h")) { w.drop_key(h); } }
+                "Dudect" => {
+                    let f = match g(c, "fault").as_str() { "none" => Fault::None, "err_before" => Fault::ErrBefore, _ => Fault::ErrAfter(7) };
+                    if matches!(f, Fault::None) && cfg!(debug_assertions) { continue; }
+                    let _ = w.dudect(&p.bytes(64), f, gi(c, "at") as usize);
+                }
                 other => panic!("unknown abstract call {}", other),
             }
         }
